@@ -34,6 +34,7 @@ Lemma check_auth_accept_iff cfg facts now r esc id :
     (t - 900 * ns <= now)%Z /\ (now <= t + p_expiry_s p * ns)%Z /\
     mem_bytes B"host" (signed_header_names (p_signed_headers p)) = true /\
     all_sensitive_signed r (signed_header_names (p_signed_headers p)) = true /\
+    needs_body_hash r (p_presigned p) && r_body_err r = false /\
     verify facts (key_of secret date region service term) (msg_of p date region service term r esc) (p_signature p) = true /\
     ecdsa_streaming r = false.
 Proof.
@@ -50,16 +51,17 @@ Proof.
     apply Z.ltb_ge in W1. apply Z.ltb_ge in W2.
     step H. apply negb_false_iff in Heqb4.
     step H. apply negb_false_iff in Heqb5.
-    step H. apply negb_false_iff in Heqb6.
+    step H.
+    step H. apply negb_false_iff in Heqb7.
     step H. inversion H; subst.
     do 7 eexists. repeat split; try eassumption; try reflexivity.
-  - intros (p & date & region & service & term & secret & t & H1 & H2 & H3 & H4 & H5 & H6 & H7 & H8 & H9 & W1 & W2 & H10 & H11 & H12 & H13).
+  - intros (p & date & region & service & term & secret & t & H1 & H2 & H3 & H4 & H5 & H6 & H7 & H8 & H9 & W1 & W2 & H10 & H11 & HB & H12 & H13).
     subst region service term date.
     unfold check_authentication. cbv zeta. rewrite H1, H2, H3. rewrite !bytes_eqb_refl. cbn [negb].
     rewrite H5, H8.
     apply Z.ltb_ge in W1. apply Z.ltb_ge in W2. rewrite W1, W2. cbn [orb].
     rewrite H10. cbn [negb].
-    unfold all_sensitive_signed in H11. rewrite H11. cbn [negb].
+    unfold all_sensitive_signed in H11. rewrite H11. cbn [negb]. rewrite HB.
     unfold key_of, msg_of in H12. rewrite H2 in H12. rewrite H12. cbn [negb].
     unfold ecdsa_streaming in H13. rewrite H13. reflexivity.
 Qed.
